@@ -59,9 +59,10 @@ class Float(float, AnyAtomicType):
                 pass
 
         _value = super().__new__(cls, value)
-        if _value > 3.4028235E38:
+        if _value >= 3.4028235677973366E38:
+            # from the halfway point between the largest xs:float and 2**128
             return super().__new__(cls, 'INF')
-        elif _value < -3.4028235E38:
+        elif _value <= -3.4028235677973366E38:
             return super().__new__(cls, '-INF')
         elif -1e-37 < _value < 1e-37:
             return super().__new__(cls, -0.0 if str(_value).startswith('-') else 0.0)
